@@ -274,16 +274,6 @@ fn inflate_bytes(data: &[u8]) -> Result<Vec<u8>> {
 }
 
 pub fn flate_decode(data: &[u8], params: &LZWFlateParams) -> Result<Vec<u8>> {
-
-    let predictor = params.predictor as usize;
-    let n_components = params.n_components as usize;
-    let columns = params.columns as usize;
-    let stride = match columns.checked_mul(n_components) {
-        Some(stride) => stride,
-        None => bail!("invalid predictor geometry: {} columns, {} components", columns, n_components)
-    };
-
-
     // First flate decode
     let decoded = {
         if let Ok(data) = inflate_bytes_zlib(data) {
@@ -295,10 +285,40 @@ pub fn flate_decode(data: &[u8], params: &LZWFlateParams) -> Result<Vec<u8>> {
             bail!("can't inflate");
         }
     };
+    unpredict(decoded, params)
+}
+
+/// Undo the predictor of `params` (shared by FlateDecode and LZWDecode): 1 = none, 2 = TIFF
+/// horizontal differencing, 10..=15 = PNG (every row starts with the tag of its filter).
+fn unpredict(decoded: Vec<u8>, params: &LZWFlateParams) -> Result<Vec<u8>> {
+    let predictor = params.predictor as usize;
+    let n_components = params.n_components as usize;
+    let columns = params.columns as usize;
+    let stride = match columns.checked_mul(n_components) {
+        Some(stride) => stride,
+        None => bail!("invalid predictor geometry: {} columns, {} components", columns, n_components)
+    };
+
+    if predictor == 2 {
+        if params.bits_per_component != 8 {
+            bail!("TIFF predictor with {} bits per component is not supported", params.bits_per_component);
+        }
+        if stride == 0 || n_components == 0 {
+            bail!("invalid predictor geometry: {} columns, {} components", columns, n_components);
+        }
+        let mut out = decoded;
+        for row in out.chunks_mut(stride) {
+            for i in n_components .. row.len() {
+                row[i] = row[i].wrapping_add(row[i - n_components]);
+            }
+        }
+        return Ok(out);
+    }
+
     // Then unfilter (PNG)
     // For this, take the old out as input, and write output to out
 
-    if predictor > 10 {
+    if predictor >= 10 {
         let inp = decoded; // input buffer
         if stride >= inp.len() {
             // not even one row: nothing to un-predict (and no row-sized buffers to allocate)
@@ -369,7 +389,7 @@ pub fn lzw_decode(data: &[u8], params: &LZWFlateParams) -> Result<Vec<u8>> {
     decoder
         .into_stream(&mut out)
         .decode_all(data).status?;
-    Ok(out)
+    unpredict(out, params)
 }
 fn lzw_encode(data: &[u8], params: &LZWFlateParams) -> Result<Vec<u8>> {
     use weezl::{BitOrder, encode::Encoder};
